@@ -353,6 +353,7 @@ fn search_stream(prop: &str, budget: usize) {
             if first.is_none() { first = Some(got); }
         }
     }
+    if prop == "C04" { search_server_limits(); }
     println!("{{\"status\":\"not-found\",\"tried\":{}}}", tried);
 }
 
@@ -1006,7 +1007,233 @@ fn ready(server: &HttpServer) -> bool {
     unsafe { libc::poll(&mut p, 1, 100) > 0 }
 }
 
+// ---------------------------------------------------------------- server-level scenarios (C04 limits, C07 batch order)
+fn poll_all(server: &mut HttpServer, rounds: usize) -> Vec<micro_http::ServerRequest> {
+    let mut v = vec![];
+    for _ in 0..rounds { if ready(server) { if let Ok(r) = server.requests() { v.extend(r); } } }
+    v
+}
+/// poll the server (only when its epoll fd is ready) until `done` says so or `max_ms` elapsed; returns false on timeout
+fn poll_until(server: &mut HttpServer, reqs: &mut Vec<micro_http::ServerRequest>, max_ms: u64, mut done: impl FnMut(&Vec<micro_http::ServerRequest>) -> bool) -> bool {
+    let t0 = std::time::Instant::now();
+    loop {
+        if done(reqs) { return true; }
+        if t0.elapsed().as_millis() as u64 > max_ms { return false; }
+        if ready(server) { if let Ok(r) = server.requests() { reqs.extend(r); } }
+    }
+}
+fn peek_some(s: &mut UnixStream, acc: &mut Vec<u8>) {
+    s.set_nonblocking(true).unwrap();
+    let mut b = [0u8; 8192];
+    while let Ok(n) = s.read(&mut b) { if n == 0 { break; } acc.extend_from_slice(&b[..n]); }
+    s.set_nonblocking(false).unwrap();
+}
+fn read_some(s: &mut UnixStream) -> Vec<u8> {
+    s.set_nonblocking(true).unwrap();
+    std::thread::sleep(std::time::Duration::from_millis(30));
+    let mut got = vec![];
+    let mut b = [0u8; 8192];
+    while let Ok(n) = s.read(&mut b) { if n == 0 { break; } got.extend_from_slice(&b[..n]); }
+    s.set_nonblocking(false).unwrap();
+    got
+}
+fn search_server_limits() {
+    // C04: "a server applies to each connection the limit configured when the client connected and answers the
+    // violation with a 400 that reports both numbers"
+    let mut tried = 0;
+    for (l_connect, l_later, n) in [(100usize, 100usize, 100usize), (100, 100, 101), (0, 0, 1), (10, 100, 50), (100, 10, 50), (51200, 51200, 51201), (5, 5, 5)] {
+        let path = format!("/tmp/wit_C04_{}_{}.sock", std::process::id(), tried);
+        let _ = std::fs::remove_file(&path);
+        let mut server = HttpServer::new(&path).unwrap();
+        server.set_payload_max_size(l_connect);
+        server.start_server().unwrap();
+        let mut c = UnixStream::connect(&path).unwrap();
+        let _ = poll_all(&mut server, 3);
+        server.set_payload_max_size(l_later);
+        let body = vec![b'x'; n];
+        let mut req = format!("PUT /limit HTTP/1.1\r\nContent-Length: {}\r\n\r\n", n).into_bytes();
+        req.extend_from_slice(&body);
+        let _ = c.write_all(&req);
+        // wait (generously: the machine may be busy) until the request is yielded or the client has an answer
+        let mut reqs = vec![];
+        let mut wire = vec![];
+        let settled = poll_until(&mut server, &mut reqs, 10_000, |r| { peek_some(&mut c, &mut wire); !r.is_empty() || wire.windows(4).any(|w| w == b"\r\n\r\n") });
+        let _ = poll_all(&mut server, 3);
+        std::thread::sleep(std::time::Duration::from_millis(30));
+        peek_some(&mut c, &mut wire);
+        let text = String::from_utf8_lossy(&wire).to_string();
+        let _ = std::fs::remove_file(&path);
+        tried += 1;
+        if !settled { continue; }   // inconclusive on a stalled machine: never a finding
+        let desc = format!("server limit {} when the client connects{}; PUT with Content-Length {}", l_connect, if l_later != l_connect { format!(", changed to {} afterwards", l_later) } else { String::new() }, n);
+        if n > l_connect {
+            if !reqs.is_empty() { found("C04", desc, format!("request yielded with a body of {} bytes", n), format!("400 reporting ({}, {})", l_connect, n)); }
+            if !text.starts_with("HTTP/1.1 400") || !text.contains(&l_connect.to_string()) || !text.contains(&n.to_string()) {
+                found("C04", desc, esc(&wire), format!("a 400 that reports {} and {}", l_connect, n));
+            }
+        } else {
+            if reqs.len() != 1 || reqs[0].request.body.as_ref().map(|b| b.len()) != Some(n) {
+                found("C04", desc, format!("{} requests yielded; client received {}", reqs.len(), esc(&wire)), "the request, delivered with its body".into());
+            }
+        }
+    }
+}
+fn search_server_batch() {
+    // C07: "at most once each and in the order the application supplied them", also through enqueue_responses
+    let path = format!("/tmp/wit_C07b_{}.sock", std::process::id());
+    let _ = std::fs::remove_file(&path);
+    let mut server = HttpServer::new(&path).unwrap();
+    server.start_server().unwrap();
+    let mut a = UnixStream::connect(&path).unwrap();
+    let mut b = UnixStream::connect(&path).unwrap();
+    let _ = poll_all(&mut server, 3);
+    let _ = a.write_all(b"GET /a0 HTTP/1.1\r\n\r\nGET /a1 HTTP/1.1\r\n\r\nGET /a2 HTTP/1.1\r\n\r\n");
+    let _ = b.write_all(b"GET /b0 HTTP/1.1\r\n\r\n");
+    let mut reqs = vec![];
+    if !poll_until(&mut server, &mut reqs, 10_000, |r| r.len() >= 4) || reqs.len() != 4 { let _ = std::fs::remove_file(&path); return; }
+    let mut batch = vec![];
+    for r in reqs {
+        let tag = r.request.uri().get_abs_path().to_string();
+        batch.push(r.process(|_| { let mut x = Response::new(Version::Http11, StatusCode::OK); x.set_body(Body::new(format!("answer-to-{}", tag))); x }));
+    }
+    let _ = server.enqueue_responses(batch);
+    let (mut wa, mut wb) = (vec![], vec![]);
+    let mut none = vec![];
+    let count = |w: &Vec<u8>| String::from_utf8_lossy(w).matches("answer-to-").count();
+    let _ = poll_until(&mut server, &mut none, 10_000, |_| { peek_some(&mut a, &mut wa); peek_some(&mut b, &mut wb); count(&wa) + count(&wb) >= 4 });
+    let _ = poll_all(&mut server, 3);
+    std::thread::sleep(std::time::Duration::from_millis(30));
+    peek_some(&mut a, &mut wa); peek_some(&mut b, &mut wb);
+    let ta = String::from_utf8_lossy(&wa).to_string();
+    let tb = String::from_utf8_lossy(&wb).to_string();
+    let _ = std::fs::remove_file(&path);
+    let pos = |t: &str, k: &str| t.find(k);
+    let order_ok = match (pos(&ta, "answer-to-/a0"), pos(&ta, "answer-to-/a1"), pos(&ta, "answer-to-/a2")) { (Some(x), Some(y), Some(z)) => x < y && y < z, _ => false };
+    if !order_ok || ta.contains("/b0") || !tb.contains("answer-to-/b0") || tb.contains("answer-to-/a") || ta.matches("answer-to-").count() != 3 {
+        found("C07", "client A pipelines /a0 /a1 /a2, client B sends /b0; the application answers all four in one enqueue_responses batch, in the order yielded".into(),
+              format!("A received {} ; B received {}", esc(ta.as_bytes()), esc(tb.as_bytes())), "A: answers to /a0, /a1, /a2 in that order, once each; B: the answer to /b0".into());
+    }
+}
+
+// ---------------------------------------------------------------- further fixed server histories (bounded stand-in for HttpServer::requests)
+struct Srv { server: HttpServer, path: String, outstanding: Vec<micro_http::ServerRequest> }
+impl Srv {
+    fn new(tag: &str) -> Srv {
+        let path = format!("/tmp/wit_{}_{}.sock", tag, std::process::id());
+        let _ = std::fs::remove_file(&path);
+        let mut server = HttpServer::new(&path).unwrap();
+        server.start_server().unwrap();
+        Srv { server, path, outstanding: vec![] }
+    }
+    /// poll while the epoll fd is ready (bounded: a level-triggered event that never goes away must not hang the search)
+    fn pump(&mut self, prop: &str, what: &str) {
+        for _ in 0..40 {
+            let mut p = libc::pollfd { fd: self.server.epoll().as_raw_fd(), events: libc::POLLIN, revents: 0 };
+            if unsafe { libc::poll(&mut p, 1, 20) } <= 0 { break; }
+            match self.server.requests() {
+                Ok(v) => self.outstanding.extend(v),
+                Err(e) => { let _ = std::fs::remove_file(&self.path); found(prop, what.to_string(), format!("HttpServer::requests() = Err({})", e), "Ok(..): polling keeps returning normally".into()); }
+            }
+        }
+    }
+    fn connect(&mut self, prop: &str, what: &str) -> UnixStream {
+        let c = UnixStream::connect(&self.path).unwrap();
+        self.pump(prop, what);
+        c
+    }
+    fn answer(&mut self, uri: &str) -> bool {
+        if let Some(i) = self.outstanding.iter().position(|r| r.request.uri().get_abs_path() == uri) {
+            let r = self.outstanding.remove(i);
+            let body = format!("echo:{}", uri);
+            let _ = self.server.respond(r.process(|_| { let mut x = Response::new(Version::Http11, StatusCode::OK); x.set_body(Body::new(body.clone())); x }));
+            true
+        } else { false }
+    }
+    fn done(&self) { let _ = std::fs::remove_file(&self.path); }
+}
+fn round_trip(s: &mut Srv, prop: &str, what: &str, uri: &str) -> Result<(), String> {
+    let mut c = s.connect(prop, what);
+    // a refused client (503 + close) may already be disconnected: the write error is part of the observation, not a crash
+    let wr = c.write_all(format!("GET {} HTTP/1.1\r\n\r\n", uri).as_bytes());
+    s.pump(prop, what);
+    if !s.answer(uri) {
+        if wr.is_err() { let mut w = vec![]; peek_some(&mut c, &mut w); return Err(format!("the server had already closed the new connection ({:?}); the client received {}", wr.err(), esc(&w))); }
+        let mut w = vec![]; peek_some(&mut c, &mut w);
+        return Err(format!("request {} was not yielded; the client received {}", uri, esc(&w)));
+    }
+    s.pump(prop, what);
+    let mut w = vec![]; peek_some(&mut c, &mut w);
+    if !String::from_utf8_lossy(&w).contains(&format!("echo:{}", uri)) { return Err(format!("the client of {} received {}", uri, esc(&w))); }
+    Ok(())
+}
+fn search_server_histories(prop: &str) {
+    if prop == "C07" {
+        // H1: a client with two requests in flight gets one answer, closes WITHOUT reading it (ECONNRESET/EPOLLERR on the
+        //     server side) while the other request is still with the application; a new client connects (descriptor number
+        //     reused); the late answer must not reach it
+        // H2: the same with shutdown(Read) + write failure instead of the reset
+        for variant in 0..2 {
+            let what = if variant == 0 { "client 1: /c1/r0 /c1/r1 yielded; /c1/r0 answered and written; client 1 closes without reading, /c1/r1 still in flight; client 2 connects; /c1/r1 answered late" }
+                       else { "client 1: /c1/r0 /c1/r1 yielded; client 1 shutdown(Read); /c1/r0 answered (write fails); client 1 closes; client 2 connects; /c1/r1 answered late" };
+            let mut s = Srv::new(if variant == 0 { "C07h1" } else { "C07h2" });
+            let mut c1 = s.connect(prop, what);
+            let _ = c1.write_all(b"GET /c1/r0 HTTP/1.1\r\n\r\nGET /c1/r1 HTTP/1.1\r\n\r\n");
+            s.pump(prop, what);
+            if s.outstanding.len() != 2 { s.done(); continue; }
+            if variant == 1 { c1.shutdown(std::net::Shutdown::Read).unwrap(); }
+            s.answer("/c1/r0");
+            s.pump(prop, what);
+            drop(c1);
+            s.pump(prop, what);
+            let mut c2 = s.connect(prop, what);
+            s.answer("/c1/r1");
+            s.pump(prop, what);
+            let mut w = vec![]; peek_some(&mut c2, &mut w);
+            s.done();
+            if !w.is_empty() { found(prop, what.into(), format!("client 2, which sent nothing, received {}", esc(&w)), "nothing: the late answer is dropped".into()); }
+        }
+    }
+    if prop == "C09" {
+        // H3: the client half-closes (shutdown(Write)) while an answer is queued but not yet written and another request is in flight;
+        //     once everything yielded from it has been answered the connection must be released, although the client keeps its socket
+        // H4: clients that stop reading (shutdown(Read)) are found out by a failing write; each is released once answered
+        for variant in 0..2 {
+            let what = if variant == 0 { "ten clients in turn: /x/r0 /x/r1 yielded; /x/r0 answered (queued); client shutdown(Write), keeps the socket; poll; /x/r1 answered; poll - then an eleventh client does a round trip" }
+                       else { "ten clients in turn: /x/r0 yielded; client shutdown(Read), keeps the socket; /x/r0 answered; poll (write fails) - then an eleventh client does a round trip" };
+            let mut s = Srv::new(if variant == 0 { "C09h3" } else { "C09h4" });
+            let mut keep = vec![];
+            let mut inconclusive = false;
+            for k in 0..10 {
+                let mut c = s.connect(prop, what);
+                let (u0, u1) = (format!("/x{}/r0", k), format!("/x{}/r1", k));
+                if variant == 0 { let _ = c.write_all(format!("GET {} HTTP/1.1\r\n\r\nGET {} HTTP/1.1\r\n\r\n", u0, u1).as_bytes()); }
+                else { let _ = c.write_all(format!("GET {} HTTP/1.1\r\n\r\n", u0).as_bytes()); }
+                s.pump(prop, what);
+                if variant == 0 {
+                    if !s.answer(&u0) { inconclusive = true; break; }
+                    c.shutdown(std::net::Shutdown::Write).unwrap();
+                    s.pump(prop, what);
+                    s.answer(&u1);
+                    s.pump(prop, what);
+                } else {
+                    c.shutdown(std::net::Shutdown::Read).unwrap();
+                    if !s.answer(&u0) { inconclusive = true; break; }
+                    s.pump(prop, what);
+                }
+                keep.push(c);
+            }
+            if !inconclusive {
+                if let Err(e) = round_trip(&mut s, prop, what, "/eleventh") { s.done(); found(prop, what.into(), e, "the eleventh client is served: the ten connections were released once answered".into()); }
+            }
+            s.done();
+            drop(keep);
+        }
+    }
+}
+
 fn search_server(prop: &str, _budget: usize) {
+    if prop == "C07" { search_server_batch(); }
+    search_server_histories(prop);
     // the history that exposed the C09 defect, and a descriptor-reuse history for C07
     let path = format!("/tmp/wit_{}_{}.sock", prop, std::process::id());
     let _ = std::fs::remove_file(&path);
@@ -1015,7 +1242,7 @@ fn search_server(prop: &str, _budget: usize) {
     let mut bad = UnixStream::connect(&path).unwrap();
     let mut good = UnixStream::connect(&path).unwrap();
     for _ in 0..3 { if ready(&server) { let _ = server.requests(); } }
-    bad.write_all(b"GET /a HTTP/1.1\r\n\r\nGET /b HTTP/1.1\r\n\r\n").unwrap();
+    let _ = bad.write_all(b"GET /a HTTP/1.1\r\n\r\nGET /b HTTP/1.1\r\n\r\n");
     let mut reqs = vec![];
     for _ in 0..5 { if ready(&server) { if let Ok(v) = server.requests() { reqs.extend(v); } } }
     if reqs.len() != 2 { let _ = std::fs::remove_file(&path); println!("{{\"status\":\"not-found\",\"tried\":0}}"); return; }
@@ -1024,7 +1251,7 @@ fn search_server(prop: &str, _budget: usize) {
     let mut resp = Response::new(Version::Http11, StatusCode::OK);
     resp.set_body(Body::new("x".to_string()));
     let mut o = Some(resp);
-    server.respond(r1.process(|_| o.take().unwrap())).unwrap();
+    let _ = server.respond(r1.process(|_| o.take().unwrap()));
     let mut tried = 0;
     for i in 0..6 {
         if !ready(&server) { break; }
@@ -1034,13 +1261,14 @@ fn search_server(prop: &str, _budget: usize) {
             found(prop, "client A: two pipelined GETs, shutdown(Read); application answers the first".into(), format!("poll {}: requests() = Err({})", i, e), "Ok(..)".into());
         }
     }
-    good.write_all(b"GET /good HTTP/1.1\r\n\r\n").unwrap();
+    let _ = good.write_all(b"GET /good HTTP/1.1\r\n\r\n");
     let mut served = false;
-    for _ in 0..6 { if ready(&server) { tried += 1; match server.requests() { Ok(v) => { for r in v { if r.request.uri().get_abs_path() == "/good" { served = true; server.respond(r.process(|_| Response::new(Version::Http11, StatusCode::NoContent))).unwrap(); } } } Err(e) => { let _ = std::fs::remove_file(&path); found(prop, "second client sends GET /good".into(), format!("requests() = Err({})", e), "the request is yielded".into()); } } } }
+    let t_good = std::time::Instant::now();
+    while !served && t_good.elapsed().as_millis() < 10_000 { if ready(&server) { tried += 1; match server.requests() { Ok(v) => { for r in v { if r.request.uri().get_abs_path() == "/good" { served = true; let _ = server.respond(r.process(|_| Response::new(Version::Http11, StatusCode::NoContent))); } } } Err(e) => { let _ = std::fs::remove_file(&path); found(prop, "second client sends GET /good".into(), format!("requests() = Err({})", e), "the request is yielded".into()); } } } }
     if !served { let _ = std::fs::remove_file(&path); found(prop, "second client sends GET /good after client A wedged".into(), "never yielded".into(), "yielded".into()); }
     // late answer to A's second request must be dropped, not delivered to anybody else
     let r2 = reqs.remove(0);
-    server.respond(r2.process(|_| { let mut r = Response::new(Version::Http11, StatusCode::OK); r.set_body(Body::new("LATE".to_string())); r })).unwrap();
+    let _ = server.respond(r2.process(|_| { let mut r = Response::new(Version::Http11, StatusCode::OK); r.set_body(Body::new("LATE".to_string())); r }));
     for _ in 0..6 { if ready(&server) { let _ = server.requests(); } }
     good.set_nonblocking(true).unwrap();
     let mut b = [0u8; 4096];
@@ -1064,6 +1292,7 @@ fn main() {
         "C05" => search_c05(budget),
         "C06" => search_c06(budget),
         "C07" | "C09" => search_server(prop, budget),
+        "C04s" => { search_server_limits(); println!("{{\"status\":\"not-found\",\"tried\":7}}"); }
         "C11" => search_c11(budget),
         "C12" => search_c12(budget),
         "C16" => search_c16(budget),
